@@ -1,5 +1,5 @@
 PROPERTY = "C07"
-PACKAGES = ["./bridgesync", "./l1infotreesync"]
+PACKAGES = ["./bridgesync", "./l1infotreesync", "./lastgersync"]
 B = "github.com/agglayer/aggkit/bridgesync."
 TABLES = ["block", "bridge", "claim", "root", "rht"]
 OBLIGATIONS = []
@@ -76,6 +76,13 @@ _l1([0, 3, 0, 1, 3], 2, 4, 5, T2)
 for fnx in (0, 8, 16, 24, 31):
     _l1([0, 3, 0, 2, 3], 2, 4, fnx, T2)
     _l1([0, 3, 0, 2, 3], 2, 6, fnx, T2)
+GT = {0: "insert of the block row", 1: "insert of the root row", 2: "delete of the root row"}
+GK = {1: "insertion (index-polling form)", 2: "insertion (event form)", 3: "removal"}
+for _k, _t, _tiers in ((1, 0, Q2), (2, 1, Q2), (3, 2, Q2), (1, 1, T2), (2, 0, T2), (3, 0, T2)):
+    OBLIGATIONS.append(dict(
+        name="C07.c injected-GER store: block with a root %s, %s fails: nothing recorded; retry == fault-free run" % (GK[_k], GT[_t]),
+        harness="github.com/agglayer/aggkit/lastgersync.ZZVerif_C07_GERFault", params={"KIND": _k, "T": _t}, tiers=_tiers, reach=["end"], time_limit_s=1500,
+        bounds="one committed block with a root, then the faulty block; all roots, indexes and X; restart after the fault or not"))
 ASSUMPTIONS = ["faults are injected as failing INSERT statements (SQLite RAISE(ABORT) triggers natively; an error return in the SQL model); "
                "SQLite's own atomic commit is trusted", "Keccak collision-freeness for store keys; bridge leaves are non-zero"]
-OUTSIDE = "failing COMMIT (cannot be injected natively with triggers); process kill inside SQLite; injected-GER store (single-statement transactions); driver-level ordering (C05)"
+OUTSIDE = "failing COMMIT (cannot be injected natively with triggers); process kill inside SQLite;  driver-level ordering (C05)"
